@@ -56,6 +56,11 @@ def cases(rng, tier, Case):
         cfg = rng.choice(["Cs", "Cs", "CsW", "CsW", "nebliatcfqhurHLpms", "pims", "nebliatcfqhurHLpsW", "ipnem", "lipsm"])
         res.append(Case("parse %s 100 TR %s" % (cfg, hx("![" + d + "](x)")), "image", {"src": hx(d)}, compare=len(d) < 700))
         res.append(Case("parse %s 100 TR %s" % (cfg, hx("> - ![" + d.replace("\n", " ") + "][r]\n\n[r]: /y 't'")), "image-ref", {"src": hx(d)}))
+    # a line break as the last (or first) thing of the description, right before the closing bracket (seed C18-11)
+    for d in ("foo\n", "foo  \n", "foo\\\n", "\nfoo", "a\nb\n", "*e*\n", "foo\n ", "`c`  \n", "a &amp;\n"):
+        for cfg in ("Cs", "CsW", "nebliatcfqhurHLp"):
+            res.append(Case("parse %s 100 TR %s" % (cfg, hx("![" + d + "](x)")), "image", {"src": hx(d)}))
+            res.append(Case("parse %s 100 TR %s" % (cfg, hx("x ![" + d + "](x) [" + d + "](y)")), "image", {"src": hx(d)}))
     # what stands BEFORE the image in the paragraph must not change how its description is read (seed C18-7: delimiter
     # bookkeeping of the paragraph leaking into the description): descriptions with a known display text behind prefixes
     # full of unmatched delimiters
